@@ -97,6 +97,9 @@ def run(ctx):
             style = rng.choice(("plain", "inline", "spread"))
             if style != "plain":
                 case = dict(case, style=style)
+            if rng.random() < 0.4:
+                case = dict(case, serve="methods")
+                ctx.stat("serve=methods")
             ctx.stat("style=" + style)
             chk.check(case, rng)
         i, n = 0, ctx.n(220, 2200)
@@ -113,6 +116,7 @@ def run(ctx):
             i += 1
         ctx.extra["random_ops"] = i
         chk.flush()
+        base.history_stream(ctx, "C09")
         base.real_pool_stage(ctx, "C09", extra_oracle=c09_oracle, n_random=4 if ctx.tier == "quick" else 30, kinds=("mutation",))
     finally:
         W.close_private_loop()
@@ -122,6 +126,13 @@ def run(ctx):
 
 def replay(ctx, data):
     W.quiet()
+    if data.get("input", {}).get("stream") == "history":
+        before = len(ctx.found)
+        try:
+            base.history_stream(ctx, "C09")
+        finally:
+            W.close_private_loop()
+        return len([f for f in ctx.found[before:] if f["kind"] == "property"]) == 0
     case = data.get("input", {}).get("case")
     if case is None:
         return True
